@@ -4,8 +4,10 @@
 (*                                                                         *)
 (* A program is a flat list of statements                                  *)
 (*   [id, sub, parent, br, k, t, op, e, fn, args]                          *)
-(* sub   "main" | "f1" | "f2"  - main calls f1(STRING var.p, INTEGER var.q) *)
-(*       and the functional f2(STRING var.p) STRING; f1 calls f2           *)
+(* sub   "main" | "f1" | "f2" | "g0" | "g1" - main calls f1(STRING var.p,   *)
+(*       INTEGER var.q), the functional f2(STRING var.p) STRING and the    *)
+(*       parameterless g0; f1 calls f2; g0 calls g1 and f2; g0 and g1      *)
+(*       declare the same local names inside a block                       *)
 (* parent/br  0 / "" = directly in the subroutine body, otherwise the id   *)
 (*       of the enclosing if statement and the branch "a" (then) / "b"     *)
 (* k     set | unset | add | log | call | if ;  t target, op operator      *)
@@ -51,7 +53,7 @@ Forms == {
   F("scatlit", "STRING", "STRING", ""), F("sif", "STRING", "BOOL", "LSTR"), F("supper", "STRING", "STRING", ""),
   F("sregsub", "STRING", "STRING", ""), F("sgroup", "STRING", "", ""), F("scatint", "STRING", "INTEGER", ""),
   F("sfcall", "STRING", "STRING", ""),
-  F("sempty", "STRING", "", ""), F("stplus", "STRING", "TIME", ""),
+  F("sempty", "STRING", "", ""), F("scatplus", "STRING", "STRING", ""), F("stplus", "STRING", "TIME", ""),
   F("stmid", "STRING", "TIME", ""), F("stvar", "STRING", "TIME", ""),
   F("tlit", "TIME", "", ""), F("tvar", "TIME", "TIME", ""),
   F("band", "BOOL", "BOOL", "BOOL"), F("bor", "BOOL", "BOOL", "BOOL"), F("bne", "BOOL", "LSTR", "STRING"),
@@ -64,7 +66,7 @@ Forms == {
 E(f, x, y) == [f |-> f, x |-> x, y |-> y]
 NoE == E("", "", "")
 \* f2 does not call itself
-FormsIn(sub) == IF sub = "f2" THEN {g \in Forms : g.f # "sfcall"} ELSE Forms
+FormsIn(sub) == IF sub \in {"f2", "g1"} THEN {g \in Forms : g.f # "sfcall"} ELSE Forms
 ExprsOf(scope, sub, ty) ==
   UNION {{E(g.f, x, y) : x \in Opd(scope, sub, g.xs), y \in Opd(scope, sub, g.ys)} : g \in {h \in FormsIn(sub) : h.ty = ty}}
 
@@ -90,7 +92,9 @@ Heads(scope, sub, kind) ==
     [] kind = "other" ->
          {H("unset", t, "", "") : t \in HdrTargets(scope) \cup HdrEdge(scope)} \cup {H("add", t, "=", "") : t \in HdrWhole(scope)} \cup {H("log", "", "", "")}
     [] kind = "call" ->
-         (IF sub = "main" THEN {H("call", "", "", "f1")} ELSE {}) \cup (IF sub # "f2" THEN {H("call", "", "", "f2")} ELSE {})
+         (IF sub = "main" THEN {H("call", "", "", "f1"), H("call", "", "", "g0")} ELSE {})
+         \cup (IF sub \in {"main", "f1", "g0"} THEN {H("call", "", "", "f2")} ELSE {})
+         \cup (IF sub = "g0" THEN {H("call", "", "", "g1")} ELSE {})
     [] kind = "if" -> {H("if", "", "", "")}
 ArgS(scope, sub) == {x \in ExprsOf(scope, sub, "STRING") : x.f \in {"slit", "svar", "scatlit", "stplus"}}
 ArgI(scope, sub) == {x \in ExprsOf(scope, sub, "INTEGER") : x.f \in {"ilit", "ivar", "ineg"}}
@@ -105,7 +109,8 @@ Bodies(scope, sub, h) ==
     [] h.k = "add" -> {B(e, <<>>) : e \in {x \in ExprsOf(scope, sub, "STRING") : x.f \in {"slit", "svar"}}}
     [] h.k = "log" -> {B(e, <<>>) : e \in ExprsOf(scope, sub, "STRING")}
     [] h.k = "call" -> IF h.fn = "f1" THEN {B(NoE, <<a, b>>) : a \in ArgS(scope, sub), b \in ArgI(scope, sub)}
-                       ELSE {B(NoE, <<a>>) : a \in ArgS(scope, sub)}
+                       ELSE IF h.fn = "f2" THEN {B(NoE, <<a>>) : a \in ArgS(scope, sub)}
+                       ELSE {B(NoE, <<>>)}
     [] h.k = "if" -> {B(e, <<>>) : e \in ExprsOf(scope, sub, "BOOL")}
 Stmt(h, b) == Mk(h.k, h.t, h.op, b.e, h.fn, b.args)
 StmtsOf(scope, sub, kind) == UNION {{Stmt(h, b) : b \in Bodies(scope, sub, h)} : h \in Heads(scope, sub, kind)}
@@ -114,7 +119,8 @@ StmtsOf(scope, sub, kind) == UNION {{Stmt(h, b) : b \in Bodies(scope, sub, h)} :
 Carriers(scope) ==
   {Mk("call", "", "", NoE, "f1", <<a, b>>) : a \in {E("svar", "var.s", ""), E("svar", "req.http.H1", ""), E("slit", "", "")},
                                             b \in {E("ivar", "var.i", ""), E("ineg", "var.i", "")}}
-  \cup {Mk("call", "", "", NoE, "f2", <<E("svar", "var.s", "")>>),
+  \cup {Mk("call", "", "", NoE, "g0", <<>>),
+        Mk("call", "", "", NoE, "f2", <<E("svar", "var.s", "")>>),
         Mk("set", "var.t", "=", E("sfcall", "var.s", ""), "", <<>>),
         Mk("set", "req.http.H2", "=", E("sfcall", "req.http.H1", ""), "", <<>>),
         Mk("log", "", "", E("sfcall", "var.s", ""), "", <<>>)}
@@ -135,7 +141,7 @@ Init == scope \in Scopes /\ stmts = <<>> /\ cat = NoCat /\ done = FALSE
 \* where a statement may go: a subroutine body or a branch of an if statement already there
 \* (a callee body only once something that runs calls it)
 CalledBy(f) == UNION {CallsIn(stmts[i]) : i \in {j \in 1..Len(stmts) : stmts[j].sub = f}}
-Live == {"main"} \cup CalledBy("main") \cup (IF "f1" \in CalledBy("main") THEN CalledBy("f1") ELSE {})
+Live == {"main"} \cup CalledBy("main") \cup UNION {CalledBy(f) : f \in CalledBy("main")}
 Places == {[sub |-> sb, parent |-> 0, br |-> ""] : sb \in Live}
           \cup {[sub |-> stmts[i].sub, parent |-> stmts[i].id, br |-> b] :
                   i \in {j \in 1..Len(stmts) : stmts[j].k = "if" /\ stmts[j].sub \in Live}, b \in {"a", "b"}}
@@ -161,7 +167,7 @@ CallFirst == /\ Shape = "call" /\ stmts = <<>>
              /\ UNCHANGED <<scope, cat, done>>
 CallSecond == /\ Shape = "call" /\ Len(stmts) = 1
               /\ LET f == Callee(stmts[1]) IN
-                 \E kd \in {"set", "other"} : \E s \in StmtsOf(scope, f, kd) : stmts' = Append(stmts, Place(s, f, 0, ""))
+                 \E kd \in {"set", "other", "call"} : \E s \in StmtsOf(scope, f, kd) : stmts' = Append(stmts, Place(s, f, 0, ""))
               /\ UNCHANGED <<scope, cat, done>>
 
 Complete == CASE Shape = "one" -> Len(stmts) = 1
